@@ -14,6 +14,21 @@ CHECKS = {
             "QemuImg and os are substituted as the selftests do; listings follow qemu's snapshot dump format; names limited to three states.", "§4 C17"),
 }
 
+
+E1NOTE = "Trusted: CPython asyncio Task semantics; the world model of tests and state pools (what a test does is modelled: duration, outcome, state effects; its answers are those of pre_state.control over the pool scopes); virttest's Cartesian parser; mini-suite = shipped sets/groups/nets/vms configs with trimmed guest configs. Bounds: <=4 workers, deviation bound k per scenario as written in the evidence, durations from a 3-5 value alphabet below the timeout."
+
+def e1(text):
+    return ("travmc", "stateless deviation-bounded model checking of the real asyncio traversal under a virtual-time scheduler", text, E1NOTE, "§2.1, §4")
+
+CHECKS.update({
+    "C01": e1("Every execution of the real traversal coroutines (all workers, real run/clean/retry policies, real pull_locations/scan_states) is enumerated over test durations, PASS/FAIL placements and tie orders with at most k deviations from the default schedule, from every enumerated initial population of the shared pool and of single workers' own pools, plus replay and retry settings; at each test start the world model decides whether each required state is reachable through the worker's own pool or a named, scope-enabled location. Exhaustive within the stated bounds; residue in a foreign own pool is a recorded known finding."),
+    "C02": e1("Same exploration with outcome alphabet PASS/FAIL/ERROR/WARN/SKIP/result-never-reported, persistent failure of each setup test and of the creation steps, max_tries 1..3, restricted workers, lazy and eager parsing, dry run; oracle: the gather completes within the horizon without traversal error or deadlock, every selected compatible test has an execution, no UNKNOWN result or started marker remains, a dry run executes nothing and changes no state."),
+    "C03": e1("Same exploration over pool_scope subsets, lxc/remote/serial spawners, max_tries/max_concurrent_tries, initial pools (all subsets of the vm1 chain in shared / own pools); oracle: executions per (worker-invariant test, reuse scope) <= max_tries, creation attempts counted per object, no execution after an all-present first examination in that scope, no flat/clone-source execution."),
+    "C04": e1("Same exploration with overlapping durations (up to 5 and 9 back-off periods, incl. durations just below a 10-period timeout budget) and 2-4 workers converging on one setup chain; oracle: sweep over execution intervals per (test, scope) <= configured max_concurrent_tries (two-step creation as one interval), each back-off sleep <= max(test_timeout*max_tries/1000, 0.1) with nothing held while sleeping."),
+    "C05": e1("Same exploration over graphs with removable (unset_mode f.) states at several depths (tutorial_gui / tutorial_get, lazy and eager), unset_mode / pool_filter / retry settings; oracle (post hoc on the complete trace): every unset request concerns a state marked f., no dependant is running at that instant or starts later without re-creation, no copy request with the default pool filter, unmarked setup is never unset."),
+    "C08": e1("Same exploration over mixed restricted workers, swarms and clusters, retries and replay; oracle at every test start: executing worker == the worker the test was parsed for, its nets_* parameters equal the worker's, its vm variants satisfy the worker's only/no restrictions, and for each required state the workers named in get_location are exactly those with a completed PASS execution (or replayed PASS result) of a producer, the shared pool is always named, and the named workers' access parameters are theirs."),
+})
+
 PLANNED = {}
 
 
